@@ -267,6 +267,11 @@ class Discharger:
                 if truth and isinstance(test, ast.Compare) and len(test.ops) == 1 and isinstance(test.ops[0], ast.Lt) and src(test.left) == idx.id and src(test.comparators[0]) == f"len({bs})":
                     if self._nonneg_index(f, idx.id):
                         return f"`{idx.id} < len({bs})` holds and {idx.id} counts from >= 0"
+        # index variable of `for i in range([a,] len(x))` / `for i, _ in enumerate(x)` inside that loop, x not shrunk there
+        if isinstance(idx, ast.Name) and isinstance(base, ast.Name):
+            why = self._range_len_index(f, n, idx.id, bs)
+            if why:
+                return why
         # dict table indexed by the validated platform
         if src(idx) in ("self._platform", "self.platform") and isinstance(base, ast.Name):
             tab = self.ctx.folder.fold(base, f.module)
@@ -290,6 +295,34 @@ class Discharger:
                 if isinstance(test, ast.Compare) and isinstance(test.ops[0], ast.In) and truth and src(test.left) == src(idx) and src(test.comparators[0]) == bs:
                     return f"guarded by `{src(idx)} in {bs}`"
         return None
+
+    def _range_len_index(self, f: Func, n: ast.AST, idx: str, bs: str) -> Optional[str]:
+        p = getattr(n, "_parent", None)
+        loop = None
+        while p is not None and p is not f.node:
+            if isinstance(p, ast.For):
+                t = p.target
+                it = p.iter
+                if isinstance(t, ast.Name) and t.id == idx and isinstance(it, ast.Call) and src(it.func) == "range" and 1 <= len(it.args) <= 2:
+                    lo = it.args[0] if len(it.args) == 2 else None
+                    hi = it.args[-1]
+                    if src(hi) == f"len({bs})" and (lo is None or (isinstance(lo, ast.Constant) and isinstance(lo.value, int) and lo.value >= 0)):
+                        loop = p
+                        break
+                if isinstance(t, ast.Tuple) and len(t.elts) == 2 and src(t.elts[0]) == idx and isinstance(it, ast.Call) and src(it.func) == "enumerate" and len(it.args) == 1 and src(it.args[0]) == bs:
+                    loop = p
+                    break
+            p = getattr(p, "_parent", None)
+        if loop is None:
+            return None
+        for x in ast.walk(loop):
+            if isinstance(x, ast.Name) and x.id in (bs, idx) and isinstance(x.ctx, (ast.Store, ast.Del)) and x is not loop.target and not (isinstance(loop.target, ast.Tuple) and x in loop.target.elts):
+                return None
+            if isinstance(x, ast.Call) and isinstance(x.func, ast.Attribute) and src(x.func.value) == bs and x.func.attr in ("pop", "remove", "clear"):
+                return None
+            if isinstance(x, ast.Delete) and any(bs in src(t) for t in x.targets):
+                return None
+        return f"`{idx}` ranges over the positions of `{bs}` ({src(loop.iter)}) and `{bs}` is not shrunk inside the loop"
 
     def _get_guard(self, f: Func, n: ast.AST, bs: str, idx: ast.AST) -> Optional[str]:
         for test, truth in self.guards(f, n):
@@ -614,6 +647,14 @@ class Discharger:
         assigns = [n for n in cfg.live if n.kind == "stmt" and isinstance(n.ast, ast.Assign) and src(n.ast.targets[0]) == k]
         use_node = cfg.node_containing(use[0])
         init_ok = any(cfg.dominates(s, use_node) and not any(lp in cfg.reachable(s) and s in cfg.reachable(lp) for lp in loops) for s in stores)
+        # or the dict is created with the key in it: d = {k: ...}
+        for n in cfg.live:
+            if n.kind == "stmt" and isinstance(n.ast, (ast.Assign, ast.AnnAssign)) and isinstance(getattr(n.ast, "value", None), ast.Dict):
+                tg = n.ast.targets[0] if isinstance(n.ast, ast.Assign) else n.ast.target
+                if src(tg) == d and any(kk is not None and src(kk) == k for kk in n.ast.value.keys):
+                    if cfg.dominates(n, use_node) and not any(lp in cfg.reachable(n) and n in cfg.reachable(lp) for lp in loops):
+                        # and k is not re-bound between the literal and the first loop other than through `assigns` below
+                        init_ok = True
         ok = init_ok
         for a in assigns:
             if a is assigns[0] and not any(a in cfg.reachable([x for lab, x in lp.succ if lab == "body"][0]) for lp in loops if [x for lab, x in lp.succ if lab == "body"]):
@@ -757,12 +798,34 @@ def r20_3(ctx: Ctx, rep: Report, sl: Set[Func]) -> None:
     sccs = ctx.cg.sccs(include_weak=False)
     rep.instance(len(sccs))
     rep.floor(5, "recursive cycles")
+    callers: Dict[Func, Set[Func]] = {}
+    for g in ctx.prog.funcs:
+        for e in ctx.cg.all_edges(g):
+            if isinstance(e.target, Func) and not e.weak:
+                callers.setdefault(e.target, set()).add(g)
     for comp in sccs:
         names = sorted(f.qualname for f in comp)
+        accepted = {f for f in comp if f.qualname in OBJECT_NESTING_CYCLES or f.qualname in CONSTRUCTION_CYCLES}
+        # a private helper all of whose callers are accepted members of the same cycle is a part of them that was
+        # extracted: inlining it back gives a cycle over accepted members only
+        extracted: Dict[str, List[str]] = {}
+        changed = True
+        while changed:
+            changed = False
+            for f in comp:
+                if f in accepted or not (f.name.startswith("_") and not f.name.startswith("__")) or f.kind in ("getter", "setter"):
+                    continue
+                cs = callers.get(f, set())
+                if cs and cs <= accepted:
+                    accepted.add(f)
+                    extracted[f.qualname] = sorted(c.qualname for c in cs)
+                    changed = True
         for q in names:
             rep.instance()
             f = ctx.func(q) if ctx.prog.find_func(q) else None
-            if q in OBJECT_NESTING_CYCLES:
+            if q in extracted:
+                rep.ok(f"cycle {names}: {q}", f"private helper called only from {extracted[q]} (members of this cycle that are bounded by object nesting): an extracted part of them", nontrivial=False)
+            elif q in OBJECT_NESTING_CYCLES:
                 rep.ok(f"cycle {names}: {q}", "depth bounded by object nesting built by the caller — " + OBJECT_NESTING_CYCLES[q], nontrivial=False)
             elif q in CONSTRUCTION_CYCLES:
                 rep.ok(f"cycle {names}: {q}", "container construction builds its children (depth = nesting of the supplied items)", nontrivial=False)
@@ -813,8 +876,8 @@ def _while_variant(ctx: Ctx, f: Func, w: ast.While) -> Optional[str]:
         if pops and not grows:
             return f"`{v}` shrinks by pop() on every iteration and never grows"
         return None
-    # (b) while True with a string that is replaced by a strict suffix of itself on every path that loops
-    if isinstance(w.test, ast.Constant) and w.test.value is True:
+    # (b) a string that is replaced by a strict suffix of itself on every path that loops
+    if True:
         cfg = ctx.cfg(f)
         anchor = next((n for n in cfg.live if n.extra.get("while") is w), None)
         if anchor is None:
@@ -836,6 +899,38 @@ def _while_variant(ctx: Ctx, f: Func, w: ast.While) -> Optional[str]:
                     body = [s for lab, s in anchor.succ]
                     if body and cfg.all_paths_pass(body[0], anchor, is_shrink, labels_avoid=("exc",)):
                         return f"every path back to the loop head replaces `{s_name}` by the part after its first separator (a strict suffix): the length decreases"
+        # `head, sep, s = s.partition(<non-empty constant>)` and the loop is re-entered only when `sep` is non-empty
+        for nd in cfg.live:
+            n = nd.ast
+            if nd.kind != "stmt" or not (isinstance(n, ast.Assign) and isinstance(n.targets[0], ast.Tuple) and len(n.targets[0].elts) == 3 and isinstance(n.value, ast.Call) and isinstance(n.value.func, ast.Attribute) and n.value.func.attr == "partition"):
+                continue
+            if not any(x is n for x in ast.walk(w)):
+                continue
+            s_name = src(n.value.func.value)
+            args = n.value.args
+            tg = n.targets[0].elts
+            if not (len(args) == 1 and isinstance(args[0], ast.Constant) and isinstance(args[0].value, str) and args[0].value and isinstance(tg[1], ast.Name) and src(tg[2]) == s_name and isinstance(n.value.func.value, ast.Name)):
+                continue
+            sep = tg[1].id
+            others = [x for x in ast.walk(w) if isinstance(x, ast.Name) and isinstance(x.ctx, ast.Store) and x.id in (s_name, sep) and not any(x is e for e in tg)]
+            if others:
+                continue
+            body = [s_ for lab, s_ in anchor.succ]
+            if not (body and cfg.all_paths_pass(body[0], anchor, lambda m, nd=nd: m is nd, labels_avoid=("exc",))):
+                continue
+            # cut the edges taken when `sep` is truthy: the loop head must then be unreachable from the partition
+            cut = set()
+            for c in cfg.live:
+                if c.kind == "cond":
+                    if isinstance(c.ast, ast.Name) and c.ast.id == sep:
+                        cut.add((c.id, "T"))
+                    elif isinstance(c.ast, ast.UnaryOp) and isinstance(c.ast.op, ast.Not) and isinstance(c.ast.operand, ast.Name) and c.ast.operand.id == sep:
+                        cut.add((c.id, "F"))
+            from .common import reachable_without_edges
+
+            after = [s_ for lab, s_ in nd.succ if lab != "exc"]
+            if cut and after and anchor not in reachable_without_edges(cfg, after[0], cut):
+                return f"every path back to the loop head replaces `{s_name}` by the part after a separator that was found (`{sep}` tested non-empty): a strict suffix, the length decreases"
     return None
 
 
